@@ -271,11 +271,10 @@ func RunSeq(sc *SeqScenario) *SeqResult {
 			res.Probes["boundary_hits"] += m.boundaryHits
 			res.Probes["approx_stores"] += m.approxStores
 			res.Probes["reports"] += len(in.w.reports)
-			// janitor configured iff interval > 0
-			_, interval := sc.A.Ctor.Effective()
-			if (interval > 0) != (bgAtStart == 1) {
-				res.add("janitor-config", "cleanup interval %d but %d background tasks were started", interval, bgAtStart)
-			}
+			// (how many goroutines a constructor starts is not pinned: a janitor that
+			// is not configured shows by a pass that runs or a Count that drops, a
+			// configured one that does not work by an entry still there two
+			// intervals after its instant)
 		} else {
 			res.checkMapSeq(insts[0].w.recs, "A")
 			res.NonTrivial = res.Probes["grows"]+res.Probes["shrinks"] > 0
